@@ -289,7 +289,31 @@ def r05_4(run, model):
     run.floor("loops binding per-arm patterns", n, 2)
 
 
+def r05_5(run, model):
+    run.rule("R05.5", "shadowing is always legal: a binder is added to the resolver environment without first looking its name up "
+                      "(no `env.rfind(name)` before `env.add(name, ..)` in the same function); the closure environment is a copy of the "
+                      "enclosing scope, so such a test rejects every parameter that shadows an outer binding")
+    NR = "crates/compiler/src/typer/name_resolution.rs"
+    n = 0
+    for f in model.fns(NR):
+        if f.body is None:
+            continue
+        adds = [c for c in S.walk(f.body) if c["k"] == "MethodCall" and c["method"] == "add" and S.is_path(c["recv"], "env") and c["args"]]
+        if not adds:
+            continue
+        looks = [c for c in S.walk(f.body) if c["k"] == "MethodCall" and c["method"] in ("rfind", "find", "get", "contains", "lookup") and S.is_path(c["recv"], "env") and c["args"]]
+        for a in adds:
+            n += 1
+            at = S.norm_ws(run.facts.text(NR, a["args"][0]["sp"]))
+            before = [l for l in looks if S.norm_ws(run.facts.text(NR, l["args"][0]["sp"])) == at and (l["sp"][0], l["sp"][1]) < (a["sp"][0], a["sp"][1])]
+            run.ob("R05.5", f"{f.name}|binder `{at}` added without a prior lookup", not before, site(NR, a["sp"]),
+                   f"env.add({at}, ..)" + (f" preceded by env.{before[0]['method']}({at}) at line {before[0]['sp'][0]}" if before else " is unconditional"),
+                   witness="let x = 10; let f = |x| x + 1; is rejected with `duplicate parameter name x in closure`")
+    run.floor("binder insertions in the resolver", n, 3)
+
+
 def run(run, model):
+    run.try_rule(r05_5, model)
     run.try_rule(r05_1, model)
     run.try_rule(r05_2, model)
     run.try_rule(r05_3, model)
